@@ -42,6 +42,13 @@ OPS = [
     (r'-=', '+=', 'minuseq->pluseq'),
     (r'\bordered_edge_u\b', 'ordered_edge_v', 'swap u->v'),
     (r'\bu_node_index\b', 'v_node_index', 'swap uidx->vidx'),
+    (r'\bedge\.u\b', 'edge.v', 'swap edge.u->edge.v'),
+    (r'\bedge\.v\b', 'edge.u', 'swap edge.v->edge.u'),
+    (r'\bv_node_index\b', 'u_node_index', 'swap vidx->uidx'),
+    (r'\bordered_edge_v\b', 'ordered_edge_u', 'swap v->u'),
+    (r'\.is_ok\(\)', '.is_err()', 'is_ok->is_err'),
+    (r'\.is_none\(\)', '.is_some()', 'is_none->is_some'),
+    (r'\.is_some\(\)', '.is_none()', 'is_some->is_none'),
     (r'!self\.', 'self.', 'drop-not'),
     (r'\breturn Ok\(\(\)\);', '', 'drop-early-return'),
     (r'\bcontinue;', '', 'drop-continue'),
